@@ -48,7 +48,29 @@ func mutate(r *prng.Rand, data []byte, spans []refcodec.Span, foreign []byte) ([
 		return &spans[cand[r.Intn(len(cand))]]
 	}
 	for try := 0; try < 8; try++ {
-		switch r.Intn(12) {
+		switch r.Intn(13) {
+		case 12: // a scalar becomes a special bit pattern: NaN (quiet, signalling, negative), infinities, -0, all ones
+			var cand []int
+			for i, sp := range spans {
+				if sp.Kind == refcodec.SScalar && (sp.End-sp.Start == 4 || sp.End-sp.Start == 8) {
+					cand = append(cand, i)
+				}
+			}
+			if len(cand) == 0 {
+				continue
+			}
+			sp := spans[cand[r.Intn(len(cand))]]
+			pats64 := []uint64{0x7ff8000000000001, 0x7ff0000000000001, 0xfff8000000000000, 0x7ff0000000000000, 0xfff0000000000000, 0x8000000000000000, 0xffffffffffffffff}
+			pats32 := []uint32{0x7fc00001, 0x7f800001, 0xffc00000, 0x7f800000, 0xff800000, 0x80000000, 0xffffffff}
+			k := r.Intn(7)
+			if sp.End-sp.Start == 8 {
+				for i := 0; i < 8; i++ {
+					out[sp.Start+i] = byte(pats64[k] >> (8 * uint(i)))
+				}
+			} else {
+				putU32(out, sp.Start, pats32[k])
+			}
+			return out, fmt.Sprintf("special@%d:%d", sp.Start, k)
 		case 0, 1: // inflate / deflate a count or length prefix
 			sp := pickSpan(refcodec.SCount, refcodec.SStrLen, refcodec.SBodyLen, refcodec.SUnionLen)
 			if sp == nil {
